@@ -905,7 +905,9 @@ def c01(tier):
 
 def c03(tier):
     jobs = [T("transformer", "VerifC03_PrePass", {"N": W(tier, 7, 9)}), LJ("VerifListener_Doc", tier, MODULES=1, NODES=W(tier, 3, 4), DEPTH=W(tier, 1, 2), SIBLINGS=0, CONDS=0),
-            LJ("VerifListener_Doc", tier, MODULES=1, NODES=1, DEPTH=0, EXPRS=1), LJ("VerifListener_Doc", tier, CHAIN=W(tier, 9, 16), **SHAPES)]
+            LJ("VerifListener_Doc", tier, MODULES=1, NODES=1, DEPTH=0, EXPRS=1), LJ("VerifListener_Doc", tier, CHAIN=W(tier, 9, 16), **SHAPES),
+            LJ("VerifListener_Doc", tier, NODES=1, DEPTH=0, SIBLINGS=0, CONDS=1, FIXLAYOUT=1, PARAMS=2, PTYPES=1),
+            LJ("VerifListener_Doc", tier, MODULES=1, MODNAMES=1, EXTEND=1, NODES=1, DEPTH=0, SIBLINGS=0, CONDS=1, FIXLAYOUT=1, PARAMS=1)]
     out = engine_a_check("C03", tier, jobs, {"VerifC03_PrePass": ["lemmas-checked"], "VerifListener_Doc": ["accepted"]},
                          PARSER_STUB + ["the ANTLR runtime's conformance to its ATN is outside (residual): that the runtime accepts every document the ATN admits and builds the tree the grammar dictates"], "",
                          bounds={"pre-pass": "all byte strings of length <= %d" % W(tier, 7, 9), "grammar facts": "no bound (regular-language inclusions on the ATN)"})
@@ -930,14 +932,16 @@ MERGE_ASSUME = ["TransformModularDSLToProto (lexer+parser+listener) is replaced 
 def merge_jobs(tier, harness, pols):
     jobs = []
     n = W(tier, 2, 2)
-    for scen, extra in ((1, {"SEPS": 1}), (2, {}), (0, {"F": 2, "DECLS": W(tier, 3, 4), "RELS": W(tier, 1, 2), "CONDS": 1, "FAULTS": 0}),
+    for scen, extra in ((1, {"SEPS": 1}), (2, {}), (3, {"N": 1}), (4, {}), (0, {"F": 2, "DECLS": W(tier, 3, 4), "RELS": W(tier, 1, 2), "CONDS": 1, "FAULTS": 0}),
                         (0, {"F": 2, "DECLS": 2, "RELS": 1, "CONDS": 1, "FAULTS": 1, "N": 1})):
         params = dict({"SCEN": scen, "N": n, "NR": 1}, **extra)
         jobs.append(T("transformer", harness, params, **pols))
     return jobs
 
 
-MERGE_BOUNDS = {"SCEN 1": "base type + two/three extensions in 2-3 files, names symbolic (length <= 2 types, 1 relations)",
+MERGE_BOUNDS = {"SCEN 3": "two base types with a relation each, two files each extending a type (all names symbolic)",
+                "SCEN 4": "one extension block with two relations whose names may be prefixes of each other, on a type that already has relations",
+                "SCEN 1": "base type + two/three extensions in 2-3 files, names symbolic (length <= 2 types, 1 relations)",
                 "SCEN 2": "relation-less base type, two extending files, optional conditions",
                 "SCEN 0": "2-3 files, global budget of declarations/relations/conditions as in per_harness params, every name symbolic; FAULTS=1 adds model headers and syntax errors"}
 
@@ -949,7 +953,7 @@ def c07(tier):
 
 
 def c12(tier):
-    jobs = merge_jobs(tier, "VerifC12_Deterministic", ALL)[:3] + merge_jobs(tier, "VerifC12_Permuted", FIRST)[:3]
+    jobs = merge_jobs(tier, "VerifC12_Deterministic", ALL)[:5] + merge_jobs(tier, "VerifC12_Permuted", FIRST)[:5]
     out = engine_a_check("C12", tier, jobs, {"VerifC12_Deterministic": ["accepted", "rejected"], "VerifC12_Permuted": ["accepted", "rejected"]},
                          MERGE_ASSUME + ["every iteration order of the maps ranged over in module-to-model.go (self-composition: two merges, independent orders)"], "", bounds=MERGE_BOUNDS)
     out.finish()
